@@ -381,7 +381,7 @@ def check_wrapper_method(ctx, fb, f, rule, impl_prefixes):
 
 
 def run(ctx):
-    fbs = ctx.facts(['KF', 'KT'], kinds=('probe',), only=r'p_atomic\.cpp$')
+    fbs = ctx.facts(['KF', 'KT'], kinds=('probe',), only=r'p_atomic\.cpp$', tests=r'/test/')
     rf = ctx.rule('R-OPTABLE.fiber', 'summary (returned, stored, expected) of each fiber atomic method body == '
                   'reference row of the std::atomic operation table', minimum=60)
     rw = ctx.rule('R-OPTABLE.wrapper', 'each wrapper method forwards once to the same-named Impl operation with its '
